@@ -31,13 +31,15 @@ THEOREMS = ['C12_expand_shorthand', 'C12_interpolates_evenly_spaced',
             'C12_chain_zero_iff', 'C12_option_tokens_app',
             'C12_last_value_app', 'C12_like_written_zero_iff',
             'C12_like_written_local_zero_iff', 'C12_fill_array_read_locally',
+            'C12_fill_array_rep_read_locally',
             'C12_cell_card_zero_iff',
             'C12_plain_card_zero_iff', 'C12_conv_keys_not_skipped',
             'C12_written_volumes', 'C12_generated_converted_iff',
             'C12_lattice_elements_converted_iff_linked',
             'C12_imp_card_text', 'C12_void_card_text',
             'C12_void_card_text_sep',
-            'C12_nonvoid_card_text', 'C12_like_card_text',
+            'C12_nonvoid_card_text', 'C12_nonvoid_card_text_sep',
+            'C12_like_card_text',
             'C12_parse_deck_text_split']
 TRUSTED = [
     'hand-written model coq/C12/Model.v + Text.v (modelled, tied by '
@@ -1027,10 +1029,10 @@ def conversion_sweep(res, rng, n_decks, n_guard):
                         if m and not vol['fictive']:
                             pairs.append((int(m.group(1)), int(m.group(2))))
                     fill_cases.append(cpair(
-                        g.c_pcase(deck, (), result),
+                        g.c_pcase(deck, (), result, texts=False),
                         clist(cpair(cz(a), cz(b)) for a, b in pairs)))
                     fill_meta.append((deck, text))
-                cases.append(cpair(g.c_pcase(deck, (), result),
+                cases.append(cpair(g.c_pcase(deck, (), result, texts=False),
                                    clist(cz(k) for k in volu),
                                    copt(note, lambda l: clist(cz(k)
                                                               for k in l)),
@@ -1107,15 +1109,15 @@ def run(res, tier, seed, proofs_ok):
         mark('corpus')
         exhaustive_decks(res, quick)
         mark('exhaustive decks')
-        expand_ties(res, rng, 300 if quick else 3000, 200 if quick else 2000,
+        expand_ties(res, rng, 240 if quick else 3000, 160 if quick else 2000,
                     2 if quick else 3)
         mark('tie:expand')
-        parse_ties(res, rng, 220 if quick else 2000, 130 if quick else 1000)
+        parse_ties(res, rng, 160 if quick else 2000, 100 if quick else 1000)
         mark('tie:parse')
     coverage_obligation(res, cov)
     lattice_sweep(res, 30 if quick else 150, rng)
     mark('lattice sweep')
-    conversion_sweep(res, rng, 220 if quick else 1800, 40 if quick else 200)
+    conversion_sweep(res, rng, 160 if quick else 1800, 32 if quick else 200)
     mark('conversion sweep + tie:conv + tie:fill')
     res.extra['section_seconds'] = {
         name: round(t - marks[k][1], 1) for k, (name, t) in enumerate(marks[1:])}
